@@ -58,6 +58,9 @@ def unroll(body, name, allow_if=False):
     if allow_if:  # one-armed `if (0 < ibz_cmp(&a, &b)) { straight-line }` -> markers handled by translate
         body = re.sub(r"\bif\s*\(\s*0\s*<\s*ibz_cmp\s*\(([^;{}()]*(?:\([^;{}()]*\)[^;{}()]*)*)\)\s*\)\s*\{([^{}]*)\}",
                       lambda m: "IF_GT_BEGIN(%s);%s;IF_END();" % (m.group(1), m.group(2)), body)
+    if allow_if:  # `if (!ibz_is_one(&a)) { straight-line }`
+        body = re.sub(r"\bif\s*\(\s*!\s*ibz_is_one\s*\(([^;{}()]*)\)\s*\)\s*\{([^{}]*)\}",
+                      lambda m: "IF_NE1_BEGIN(%s);%s;IF_END();" % (m.group(1), m.group(2)), body)
     if re.search(r"\b(for|while|if|else|goto|switch)\b", body):
         raise TranslateError("%s: control flow outside the subset" % name)
     return body
@@ -154,6 +157,12 @@ def translate(src, name, inputs, outputs, out_arg, check_alias=True, done=(), al
                 raise TranslateError("%s: nested / malformed if" % name)
             a, b = rd(args[0]), rd(args[1])
             branch.append(("%s < %s" % (b, a), dict(env))); continue  # 0 < cmp(a, b)  <=>  b < a
+        if f == "IF_NE1_BEGIN":
+            if branch or len(args) != 1:
+                raise TranslateError("%s: nested / malformed if" % name)
+            branch.append(("¬(%s = 1)" % rd(args[0]), dict(env))); continue
+        if f == "assert":  # debug-only (NDEBUG builds drop it); the divisibilities are hypotheses of o0basis_exact
+            continue
         if f == "IF_END":
             cond, snap = branch.pop()
             for op in list(env):
@@ -305,12 +314,13 @@ def generate(repo, outdir):
         ("quat_alg_elem_copy_ibz", {"denom": "d", **{"coord%d" % i: "c%d_" % i for i in range(4)}}, ELEM("elem"), "elem",
          "d c0_ c1_ c2_ c3_", T5, True),
         ("quat_alg_normalize", elem("x"), ELEM("x"), "x", "xd x0 x1 x2 x3", T5, True),
+        ("from_1ijk_to_O0basis", elem("el"), COORD("vec"), "vec", "eld el0 el1 el2 el3", T4, True),
         ("quat_alg_elem_mul_by_scalar", {"scalar": "s", **elem("elem")}, ELEM("res"), "res",
          "s elemd elem0 elem1 elem2 elem3", T5, True),
     ]
     for name, inputs, outputs, oa, params, ty, chk in jobs:
         lets, res = translate(src, name, inputs, outputs, oa, check_alias=chk, done=tuple(done),
-                              allow_if=(name == "quat_alg_normalize"))
+                              allow_if=(name in ("quat_alg_normalize", "from_1ijk_to_O0basis")))
         out += ["/-- `%s`: %s -/" % (name, ", ".join(outputs)),
                 "def %s (%s : Int) : %s :=" % (name, params, ty)] + lets + ["  (%s)" % ", ".join(res), ""]
         done.append(name)
